@@ -673,6 +673,43 @@ def part_route(chk, gens):
         raise vlib.Inconclusive("vacuous / failing dtls listener replay: %s" % tot)
 
 
+def late_cases():
+    return [{"name": "dtls12/cid%d-%d/hv%d" % (cc, cs, hv), "scen": dict(ver="12", cidC=cc, cidS=cs, helloVerify=bool(hv))}
+            for cc, cs in ((4, 4), (0, 4), (8, 2), (4, 8)) for hv in (0, 1)]
+
+
+def run_late(binary, cases):
+    wd = vlib.scratch("c15l")
+    try:
+        inp, out = os.path.join(wd, "in.json"), os.path.join(wd, "out.ndjson")
+        json.dump(cases, open(inp, "w"))
+        rc, txt = vlib.run_test(binary, "TestVerifC15LateZero", {"VERIF_IN": inp, "VERIF_OUT": out}, timeout=600)
+        if rc != 0 or not os.path.exists(out):
+            raise vlib.Inconclusive("late-record harness failed: " + txt[-2000:])
+        return vlib.read_ndjson(out)
+    finally:
+        shutil.rmtree(wd, ignore_errors=True)
+
+
+def part_late(chk):
+    """the peer's record numbered 0 of the protected epoch arrives late, from another address, after newer records were
+    accepted: it is authentic but not the newest - no return routability check, no address change"""
+    cases = late_cases()
+    rows = run_late(vlib.build("root"), cases)
+    judged = 0
+    for c, r in zip(cases, rows):
+        if r.get("lab"):
+            chk.note("late-record case %s could not run: %s" % (c["name"], r["lab"]))
+            continue
+        judged += 1
+        chk.evaluated(key="late:" + c["name"])
+        for v in (r.get("violations") or [])[:1]:
+            chk.violation({"kind": "stale-record-starts-check", "what": v, "late_case": c, "part": "late-zero"})
+    if judged < len(cases) - 1 and not chk.violations:
+        raise vlib.Inconclusive("only %d of %d late-record cases ran" % (judged, len(cases)))
+    chk.parts["late_record_zero"] = {"cases": len(cases), "judged": judged}
+
+
 def run(chk):
     parts = os.environ.get("VERIF_C15_PARTS", "mgr,conn,route").split(",")   # development aid
     gens, checks, broken = start_tlc(chk)
@@ -682,6 +719,8 @@ def run(chk):
         part_connections(chk, gens)
     if "route" in parts:
         part_route(chk, gens)
+    if "conn" in parts:
+        part_late(chk)
     join_tlc(chk, checks, broken)
     chk.coverage["rule"] = (
         "manager: one script per explored edge of the manager model; connections: per (own CID, RRC) class the edge scripts of "
@@ -699,7 +738,12 @@ def run(chk):
 
 def replay(chk, path):
     facts = json.load(open(path))
-    if facts.get("part") == "manager":
+    if facts.get("part") == "late-zero":
+        chk.evaluated(key="replay")
+        for r in run_late(vlib.build("root"), [facts["late_case"]]):
+            if r.get("violations"):
+                chk.violation(dict(facts, replayed=True), replay=path)
+    elif facts.get("part") == "manager":
         rows, _ = replay_mgr(chk, vlib.build("rrc"), [facts["script"]])
         for r in rows:
             for v in r.get("violations") or []:
